@@ -191,6 +191,10 @@ def make_recorder():
     return Rec
 
 
+class Unobservable(Exception):
+    """the aggregator no longer exposes the attributes the recorder projects (internal refactoring)"""
+
+
 def record(src, settings):
     """Run the real parser + walker over CMake text with the recording aggregator. Returns events."""
     import contextlib
@@ -206,6 +210,12 @@ def record(src, settings):
         rec = Rec(settings)
         try:
             ParseTreeWalker().walk(rec, tree)
+        except (AttributeError, TypeError) as e:
+            # the recorder reads internal attributes; if they are gone the execution cannot be projected
+            import traceback
+            tb = traceback.extract_tb(e.__traceback__)
+            if any(fr.filename.endswith("aggtrace.py") and fr.name in ("_post", "_entry", "_all_entries", "_idx", "_documented") for fr in tb):
+                raise Unobservable(str(e))
         except Exception:
             pass
     return rec.events
@@ -342,7 +352,10 @@ def random_batch(seed, n, flags="default", pats=None, maxlen=40, ood_share=0.25,
         src = gen_program(rng, rng.randint(3, maxlen), in_domain=rng.random() >= ood_share)
         inc = {k: (True if flags == "default" else rng.random() < 0.6) for k in FLAG_KINDS}
         p = pats if pats is not None else {"f": rng.random() < 0.5, "m": rng.random() < 0.5, "x": rng.random() < 0.5}
-        ev = record(src, agg.make_settings(inc, p))
+        try:
+            ev = record(src, agg.make_settings(inc, p))
+        except Unobservable as e:
+            return [{"unobservable": str(e)}]
         traces.append({"id": "random-%d-%d" % (seed, i), "inc": inc, "events": ev, "source": src,
                        "features": features_from_events(ev, inc)})
     if fixtures:
@@ -356,7 +369,10 @@ def random_batch(seed, n, flags="default", pats=None, maxlen=40, ood_share=0.25,
             except Exception:
                 continue
             inc = {k: True for k in FLAG_KINDS}
-            ev = record(src, agg.make_settings(inc, {}))
+            try:
+                ev = record(src, agg.make_settings(inc, {}))
+            except Unobservable as e:
+                return [{"unobservable": str(e)}]
             traces.append({"id": os.path.relpath(f, lib.REPO), "inc": inc, "events": ev, "source": src,
                            "features": features_from_events(ev, inc)})
     return traces
@@ -364,6 +380,10 @@ def random_batch(seed, n, flags="default", pats=None, maxlen=40, ood_share=0.25,
 
 def validate_batch(run, traces, props=("C02", "C03", "C08", "C09", "C11"), judge_pid=None):
     """traces: list of {"id", "inc", "events", "source"}; TLC validates them; results folded into run."""
+    if traces and "unobservable" in traces[0]:
+        run.drifted({"aggregator_traces": "internal state of DocumentationAggregator is no longer observable by the recorder "
+                                          "(binding B skipped; the verdict rests on binding A)", "detail": traces[0]["unobservable"]})
+        return
     traces = [t for t in traces if t["events"]]
     if not traces:
         return
